@@ -387,7 +387,216 @@ class Setup:
         sn.close()
 
 
+# ---------------------------------------------------------------------------------------------------------------------
+# Non-interference lane: what an honest connection sees must not depend on a failing connection next to it
+# ---------------------------------------------------------------------------------------------------------------------
+HOSTILE_ENDINGS = ["bad-magic", "garbage", "over-limit-length", "undecodable-payload", "truncated-then-close", "close"]
+
+
+def _norm(msgs):
+    """messages the node sent to a peer, without the per-message header fields (ids, timestamps)"""
+    out = []
+    for m in msgs:
+        d = m["msg"]
+        t = d["type"]
+        if t == "get_data":
+            out.append(("get_data", d.get("kind"), d["hash"].hex()))
+        elif t == "get_blocks":
+            out.append(("get_blocks", tuple(h.hex() for h in d["hashes"])))
+        elif t == "inventory":
+            out.append(("inventory", tuple(h.hex() for _t, h in d["items"])))
+        elif t == "data":
+            out.append(("data", d.get("kind"), (d["block"].id().hex() if d.get("kind") == "block" else "")))
+        else:
+            out.append((t,))
+    return out
+
+
+class Shared:
+    """one node, honest peers Y and Z, optionally a hostile X; X announces the blocks Y announces, is asked for them,
+    and fails instead of delivering"""
+
+    def __init__(self, world, future, rng, tag):
+        self.world, self.future = world, future
+        self.sn = sn = nodekit.SingleNode(world, rng, tag, npeers=2)
+        self.fb = {rb.id(): rb for rb in future}
+        sn.net.clock.t = max(sn.net.clock.t, max(rb.ts for rb in future) + 50)
+        self.seen = {0: [], 1: []}
+        self.x = None
+
+    def collect(self, i):
+        msgs = simnet.Wire.parse(self.sn.peers[i].take_received())[0]
+        self.seen[i] += msgs
+        return msgs
+
+    def event(self, ev, rng):
+        sn = self.sn
+        ms = sn.wire.ms
+        kind = ev[0]
+        if kind == "x-connect":
+            self.x = sn.net.raw_connect(sn.node, src=("10.66.7.1", 47000))
+            simnet.greet(sn.net, sn.node, self.x, sn.wire, nonce=99)
+        elif kind == "x-announce":
+            self.x.push(sn.wire.frame(ms.InventoryMessage([ms.InventoryItem(ms.DATA_BLOCK, h) for h in ev[1]])))
+        elif kind == "x-fail":
+            how = ev[1]
+            fr = sn.wire.frame(ms.GetBlocksMessage([self.world.gid]))
+            if how == "bad-magic":
+                self.x.push(b"MAJ1" + fr[4:])
+            elif how == "garbage":
+                self.x.push(bytes(range(7, 90)))
+            elif how == "over-limit-length":
+                self.x.push(fr[:4] + struct.pack(">I", ref.MAX_MESSAGE_SIZE + 1) + fr[8:])
+            elif how == "undecodable-payload":
+                self.x.push(ref.frame(fr[8:8 + ref.MSG_HEADER_LEN + 3]))
+            elif how == "truncated-then-close":
+                self.x.push(fr[:11])
+                sn.settle()
+                self.x.close()
+            else:
+                self.x.close()
+        elif kind in ("y-announce", "z-announce"):
+            i = 0 if kind[0] == "y" else 1
+            sn.peers[i].push(sn.wire.frame(ms.InventoryMessage([ms.InventoryItem(ms.DATA_BLOCK, h) for h in ev[1]])))
+        elif kind in ("y-serve", "z-serve"):
+            # the honest peer answers what it has been asked so far: blocks for GetData, an empty inventory for GetBlocks
+            i = 0 if kind[0] == "y" else 1
+            limit = ev[1]
+            served = 0
+            for m in self.collect(i):
+                d = m["msg"]
+                if d["type"] == "get_data" and d["hash"] in self.fb and served < limit:
+                    served += 1
+                    sn.peers[i].push(sn.wire.block(bridge.rblock_to_real(self.fb[d["hash"]]), in_response_to=m["header"]["id"]))
+                elif d["type"] == "get_blocks":
+                    sn.peers[i].push(sn.wire.frame(ms.InventoryMessage([]), in_response_to=m["header"]["id"]))
+        if kind.startswith("x-") and self.x is None:
+            return
+        sn.settle(fragment=rng.random() < 0.3)
+
+    def finish(self):
+        sn = self.sn
+        for i in (0, 1):
+            self.collect(i)
+        res = {"y": _norm(self.seen[0]), "z": _norm(self.seen[1]), "state": gen.fingerprint(sn.cm.coinstate),
+               "held": [h.hex() for h in self.fb if h in sn.cm.coinstate.block_by_hash],
+               "escaped": sn.escaped(), "y_alive": sn.is_active(sn.peers[0]), "z_alive": sn.is_active(sn.peers[1]),
+               "x_gone": self.x is None or self.x.peer.closed or self.x.peer not in sn.lp.selector.map}
+        sn.close()
+        return res
+
+
+def make_script(rng, future):
+    ids = [rb.id() for rb in future]
+    x_part = [("x-connect",), ("x-announce", ids if rng.random() < 0.6 else ids[:rng.randint(1, len(ids))])]
+    y_part = [("y-announce", ids)]
+    if rng.random() < 0.4:
+        y_part.append(("z-announce", ids[:rng.randint(1, len(ids))]))
+    # the honest events are merged with the hostile ones in a random order (keeping each side's own order)
+    fail = ("x-fail", rng.choice(HOSTILE_ENDINGS))
+    tail = [("y-serve", rng.choice([1, 2, 99])), ("z-serve", 99), ("y-serve", 99), ("z-serve", 99), ("y-serve", 99)]
+    xs = x_part + [fail]
+    ys = y_part + tail
+    script = []
+    i = j = 0
+    while i < len(xs) or j < len(ys):
+        if j >= len(ys) or (i < len(xs) and rng.random() < 0.5):
+            script.append(xs[i])
+            i += 1
+        else:
+            script.append(ys[j])
+            j += 1
+    # whatever the merge, the honest peers keep serving after the failure
+    script += [("y-serve", 99), ("z-serve", 99), ("y-serve", 99)]
+    return script
+
+
+def _ser(script):
+    return [[e[0]] + ([[h.hex() for h in e[1]]] if len(e) > 1 and isinstance(e[1], list) else list(e[1:])) for e in script]
+
+
+def _deser(script):
+    return [tuple([e[0]] + ([[bytes.fromhex(h) for h in e[1]]] if len(e) > 1 and isinstance(e[1], list) else e[1:])) for e in script]
+
+
+def noninterference_case(mon, world, future, script, w, seed):
+    runs = {}
+    for with_x in (False, True):
+        random.seed(seed)          # the node picks the peer it asks for blocks, and its message ids, from the global generator
+        sh = Shared(world, future, random.Random(seed), "c20-ni")
+        frng = random.Random(seed)          # same fragmentation decisions in both runs
+        for ev in script:
+            if not with_x and ev[0] in ("x-announce", "x-fail"):     # the baseline: the same peer connects, greets and stays silent
+                frng.random()
+                continue
+            sh.event(ev, frng)
+        runs[with_x] = sh.finish()
+    a, b = runs[False], runs[True]
+    c = mon.c
+    c["noninterference_cases"] = c.get("noninterference_cases", 0) + 1
+    c["noninterference_messages_compared"] = c.get("noninterference_messages_compared", 0) + len(a["y"]) + len(a["z"])
+    c["hostile_gone_in_noninterference"] = c.get("hostile_gone_in_noninterference", 0) + b["x_gone"]
+    if len(a["held"]) == len(future):
+        c["noninterference_baseline_downloads_complete"] = c.get("noninterference_baseline_downloads_complete", 0) + 1
+    if b["escaped"]:
+        mon.v("exception-escaped-event-loop:" + b["escaped"][0].split(":")[0], b["escaped"][0][:300], w)
+    if a["escaped"]:
+        mon.inconclusive.append("exception in the run WITHOUT a hostile peer: " + a["escaped"][0][:200])
+        return
+    if not (b["y_alive"] and b["z_alive"]) and a["y_alive"] and a["z_alive"]:
+        mon.v("honest-connection-closed-or-deregistered", "an honest connection is gone after the failure of another connection", w)
+    for who in ("y", "z"):
+        if a[who] != b[who]:
+            k = next((n for n, (p, q) in enumerate(zip(a[who], b[who])) if p != q), min(len(a[who]), len(b[who])))
+            exp = a[who][k] if k < len(a[who]) else None
+            got = b[who][k] if k < len(b[who]) else None
+            mon.v("honest-connection-traffic-depends-on-failing-connection",
+                  "what the node sends to honest peer %s differs when another peer announces the same blocks and then "
+                  "fails (%s): message #%d is %s, with that peer staying silent it is %s" % (
+                      who.upper(), [e[1] for e in script if e[0] == "x-fail"][0], k, str(got)[:120], str(exp)[:120]), w)
+            break
+    if a["held"] != b["held"] or a["state"] != b["state"]:
+        mon.v("honest-download-broken-by-hostile-input", "with a failing peer next to it the download from the honest peers ends "
+              "with %d of %d blocks, with that peer staying silent with %d" % (len(b["held"]), len(future), len(a["held"])), w)
+
+
+def noninterference_lane(mon, rng, ncases):
+    for j in range(ncases):
+        world = gen.World(rng)
+        world.grow(rng.choice([3, 6, 9]), rng, tx_prob=0.4)
+        base = world.fork()
+        head = world.cs.current_chain_hash
+        future = []
+        for _ in range(rng.randint(1, 5)):
+            parent = world.chain.blocks[head]
+            rb = world.mine(world.draft(head, [], parent.ts + rng.choice([1, 10, 60]), world.keys[0][1]))
+            if world.accept(rb, bridge.rblock_to_real(rb)) is None:
+                break
+            future.append(rb)
+            head = rb.id()
+        if not future:
+            continue
+        for _k in range(3):
+            script = make_script(rng, future)
+            w = {"kind": "noninterference", "chain": gen.blocks_hex(base, base.chain.order[1:]),
+                 "future": [rb.enc().hex() for rb in future], "script": _ser(script), "seed": j}
+            mon.digests.add(digest(repr(_ser(script)).encode(), True))
+            noninterference_case(mon, base, future, script, w, j)
+
+
+def replay_noninterference(mon, w):
+    rng = random.Random(0)
+    world = gen.World(rng)
+    for hx in w.get("chain", []):
+        rb = ref.parse_block(bytes.fromhex(hx))
+        world.accept(rb, bridge.rblock_to_real(rb), validate=False)
+    future = [ref.parse_block(bytes.fromhex(hx)) for hx in w["future"]]
+    noninterference_case(mon, world, future, _deser(w["script"]), w, w.get("seed", 0))
+
+
 def replay(mon, w):
+    if w.get("kind") == "noninterference":
+        return replay_noninterference(mon, w)
     rng = random.Random(0)
     world = gen.World(rng)
     for hx in w.get("chain", []):
@@ -433,6 +642,7 @@ def run_shard(spec):
             st = Setup(mon, rng, j)
             mon.c["setups"] += 1
             st.run(300 if quick else 450)
+        noninterference_lane(mon, rng, 6 if quick else 120)
     return {"evaluations": mon.c["streams"], "digests": sorted(mon.digests), "violations": mon.viol, "counters": mon.c,
             "samples": mon.samples, "inconclusive": mon.inconclusive}
 
@@ -443,7 +653,10 @@ def finalize(m, tier):
               ("hostile_disconnected", c.get("hostile_disconnected", 0), 3000), ("hostile_survived", c.get("hostile_survived", 0), 500),
               ("downloads_completed_after_hostile_phase", c.get("downloads_completed_after_hostile_phase", 0), 30),
               ("frames_well_formed_but_invalid", c.get("frames_well_formed_but_invalid", 0), 200),
-              ("streams_before_greeting", c.get("streams_before_greeting", 0), 300)]
+              ("streams_before_greeting", c.get("streams_before_greeting", 0), 300),
+              ("noninterference_cases", c.get("noninterference_cases", 0), 200),
+              ("noninterference_baseline_downloads_complete", c.get("noninterference_baseline_downloads_complete", 0), 100),
+              ("hostile_gone_in_noninterference", c.get("hostile_gone_in_noninterference", 0), 150)]
     for k in ("bit-flip", "truncate", "splice", "reorder", "undecodable-payload", "unknown-type", "bad-magic", "over-limit-length",
               "random-bytes", "huge-list-length"):
         floors.append(("kind " + k, c.get("by_kind", {}).get(k, 0), 200))
